@@ -120,6 +120,7 @@ class Interp:
         self.guards: list[tuple[tuple, str, int]] = []
         self.raise_terms: dict[int, tuple] = {}
         self.unknown_calls: set[str] = set()
+        self.sym_shapes: dict[str, tuple] = {}
         self.scans: list[dict] = []
         self.call_log: list[str] = []
         self.attr_writes: list[tuple[str, tuple, int]] = []
@@ -225,6 +226,23 @@ class Interp:
         if k == "ite":
             return T_ite(f[1], self.call_value(f[2], args, kw, node, fr), self.call_value(f[3], args, kw, node, fr))
         if k == "class":
+            ci = f[1]
+            # a plain record (NamedTuple, or a dataclass without hand-written construction logic): fields by name and position
+            is_nt = any(b.split(".")[-1] == "NamedTuple" for b in ci.base_exprs)
+            is_dc = ci.is_dataclass() and "__init__" not in ci.methods and "__post_init__" not in ci.methods and not ci.bases
+            if (is_nt or is_dc) and ci.fields and not ci.name.endswith(("Config", "State", "Info")):
+                names = list(ci.fields)
+                vals = dict(zip(names, args))
+                if len(args) > len(names) or set(kw) - set(names) or set(kw) & set(vals):
+                    raise Unsupported(f"record {ci.name}: constructor arguments do not match its fields")
+                vals.update(kw)
+                for n_ in names:
+                    if n_ not in vals:
+                        d = ci.fields[n_].value
+                        if d is None:
+                            raise Unsupported(f"record {ci.name}: field {n_} not given")
+                        vals[n_] = self.ev(d, {}, Frame(ci, ci.module, None))
+                return ("record", ci.name, tuple((n_, vals[n_]) for n_ in names))
             return ("app", "new:" + f[1].name, tuple(args) + tuple(v for _k, v in sorted(kw.items())))
         raise Unsupported(f"call of non-callable value {show(f) if isinstance(f, tuple) else f!r}"
                           + (f" at line {node.lineno}" if node is not None else ""))
@@ -464,6 +482,9 @@ class Interp:
                 if name in before and name not in accs and name != s.target.id and _is_term(before[name]):
                     symname = f"FOLD{next(_ctr)}_{name}"
                     self.axes[symname] = self.axes_of(before[name])
+                    shp = self.shape_of(before[name])
+                    if shp is not None:
+                        self.sym_shapes[symname] = shp
                     folds[name] = S(symname)
                     e[name] = folds[name]
             attrs0 = dict(self.attrs)
@@ -730,6 +751,11 @@ class Interp:
             return ("sym", f"{base[1]}.{attr}")
         if k == "mod":
             return ("mod", base[1] + "." + attr)
+        if k == "record":
+            for n_, v_ in base[2]:
+                if n_ == attr:
+                    return v_
+            raise Unsupported(f"record {base[1]} has no field {attr}")
         if k == "class":
             r = self.ct.class_attr(base[1], attr)
             if r is not None:
@@ -777,8 +803,30 @@ class Interp:
         idx = self.ev(e.slice, env, fr)
         return self.index(base, idx)
 
+    def shape_of(self, t):
+        """Static shape of an array term as a tuple of size terms, when it is evident (zeros of a literal shape, an
+        accumulation into such an array, a symbol with a recorded shape); None otherwise."""
+        k = t[0]
+        if k == "app" and t[1] in ("zeros", "ones", "np.full") and t[2] and t[2][0][0] == "tuple":
+            return tuple(t[2][0][1])
+        if k == "fold":
+            return self.shape_of(t[3])
+        if k in ("scatter", "atadd"):
+            return self.shape_of(t[1])
+        if k == "sym":
+            return self.sym_shapes.get(t[1])
+        if k == "ite":
+            a, b = self.shape_of(t[2]), self.shape_of(t[3])
+            return a if a == b else None
+        return None
+
     def index(self, base, idx):
         k = base[0]
+        if k == "record" and is_num(idx):
+            i = int(idx[1])
+            if -len(base[2]) <= i < len(base[2]):
+                return base[2][i][1]
+            raise Unsupported("record index out of range")
         if k == "tuple" and is_num(idx):
             i = int(idx[1])
             if -len(base[1]) <= i < len(base[1]):
@@ -795,6 +843,11 @@ class Interp:
                 raise Unsupported(f"dict key {idx[1]!r} not in literal")
             return ("app", "dictget", (base, idx))
         if k == "shape":
+            dims = self.shape_of(base[1])
+            if dims is not None and is_num(idx) and -len(dims) <= int(idx[1]) < len(dims):
+                return dims[int(idx[1])]
+            if idx == ZERO and base[1][0] == "sym":
+                return ("app", "len", (base[1],))  # x.shape[0] of a plain array symbol is len(x)
             if is_num(idx):
                 return ("app", "shape", (base[1], idx))
             if idx[0] == "slice":
@@ -1541,7 +1594,9 @@ def _p_reduce(op):
 def _p_take(I, args, kw, node):
     base, idx = args[0], args[1]
     axis = kw.get("axis", args[2] if len(args) > 2 else NONE)
-    if axis not in (ZERO, NONE):
+    if axis == ZERO:
+        return I.index(base, idx)
+    if axis != NONE:
         return ("app", "take", (base, idx, ("kw", "axis", axis)))
     lx = idx if idx[0] == "lam" else I.eta(idx)
     if lx is not None:
@@ -1595,7 +1650,24 @@ def _p_split(I, args, kw, node):
 
 
 def _p_permutation(I, args, kw, node):
+    args = list(args)
+    if len(args) == 2 and args[1][0] != "lam" and not I.axes_of(args[1]) and not (args[1][0] == "app" and args[1][1] in ("arange", "array", "hstack")):
+        args[1] = ("app", "arange", (args[1],))  # permutation(key, n) shuffles arange(n)
     return ("app", "permutation", tuple(args))
+
+
+def _p_pad(I, args, kw, node):
+    # jnp.pad(x, ((0, k), (0, 0))) with constant zeros appends k zero rows: vstack([x, zeros((k, x.shape[1]))])
+    x, pw = args[0], args[1] if len(args) > 1 else kw.get("pad_width")
+    mode = kw.get("mode", args[2] if len(args) > 2 else ("const", "constant"))
+    cv = kw.get("constant_values", ZERO)
+    if mode == ("const", "constant") and cv == ZERO and pw is not None and pw[0] == "tuple" and len(pw[1]) == 2 \
+            and all(p[0] == "tuple" and len(p[1]) == 2 for p in pw[1]) and pw[1][0][1][0] == ZERO and pw[1][1][1] == (ZERO, ZERO):
+        k = pw[1][0][1][1]
+        ncol = I.index(("shape", x), K(1))
+        return ("app", "vstack", (x, ("app", "zeros", (("tuple", (k, ncol)),))))
+    extra = tuple(("kw", k_, v) for k_, v in sorted(kw.items()))
+    return ("app", "?np.pad", tuple(args) + extra)
 
 
 def _p_argsort(I, args, kw, node):
@@ -1753,6 +1825,7 @@ PRIMS = {
     "itertools.product": _p_product,
     "np.select": _p_select,
     "np.flip": _p_flip,
+    "np.pad": _p_pad,
     "functools.reduce": _p_functools_reduce,
     "np.atleast_1d": _p_atleast_1d,
     "random.split": _p_split,
